@@ -16,7 +16,7 @@ def c06():
               "invalid identifiers (also 2^32|fd and 2^63|fd), NULL callback; the arguments reaching timerfd_create/timerfd_settime/epoll_ctl are captured and compared "
               "with an exact 128-bit integer conversion; plus an exhaustive unit-boundary table. (b) ev_fire: rapidcheck histories over 1-3 "
               "channels (socketpair read, socketpair write, 1-12 ms timers) of add/enable/disable/delete (on the owning thread or from "
-              "outside), peer write, drain, peer close, half close, sleep, descriptor reuse (both ends closed without a delete and a new socket pair "
+              "outside; also through tpt_ev_enable_args1(), which has no flags argument and must keep the registered ones), peer write, drain, peer close, half close, sleep, descriptor reuse (both ends closed without a delete and a new socket pair "
               "on the same number while the user record keeps its state), pipe write ends whose reader closes (error condition), timers named after the "
               "descriptor number of another channel; a per-channel model predicts silent / exactly-once / at-least-once; negative "
               "claims are sequenced through the owning thread with fences, awaited callbacks use a 20 s ceiling (3 of 3 runs). (c) ev_proc: "
@@ -26,7 +26,11 @@ def c06():
               "optional injected epoll_ctl failure; a model predicts every return code (EEXIST, ENOENT, ESRCH after the library reaped the "
               "child, EINVAL before the first add), exactly one report per exit carrying TP_FF_P_EXIT and the true wait status, silence after "
               "disable/delete, and the exact number of open process descriptors after every step (pidfd_open is counted through the "
-              "redirected syscall()). Non-trivial: "
+              "redirected syscall()); user records that carry stale state of an earlier read registration (disabled, descriptor closed, never deleted). "
+              "(k) ev_sibling_removal: 2-6 registrations (read / write / 1-3 ms timers; persistent, one-shot, dispatch) of one thread are made ready while the thread "
+              "is busy in a callback; the first callback of each channel deletes or disables a generated set of siblings; oracle over the owner-thread log: no "
+              "callback for a registration after its removal returned 0, event kind as registered, one-shot/dispatch read/write at most once, every "
+              "registration that was not removed reports (20 s ceiling, 3 of 3 runs). Non-trivial: "
               "sub-second or >=2^32 timer data, one-shot/dispatch registrations, >=3 operations, disable/delete with the condition still "
               "holding, EOF, >=2 channels. distinct = distinct case fingerprints."),
         assumptions=["flag bits 2-3 (reserved for EDGE/EXCLUSIVE in the header mask) are not asserted either way",
